@@ -53,6 +53,19 @@ Theorem fifo_service : forall N evs,
 Proof. intros N evs. exact (fifo_service_lemma N (exec N evs) (exec_reachable N evs)). Qed.
 Print Assumptions fifo_service.
 
+(* "has not yet been served", history form: over the whole execution no client is ever granted the lock twice, and
+   every client that was granted had its request received by the server before *)
+Theorem served_at_most_once : forall N evs,
+  NoDup (granted (exec N evs)) /\ incl (granted (exec N evs)) (arrived (exec N evs)).
+Proof.
+  intros N evs. destruct (fifo_service N evs) as [Hnd [w Hw]]. split.
+  - rewrite Hw in Hnd. clear Hw. induction w as [|a w IH].
+    + rewrite app_nil_r in Hnd. exact Hnd.
+    + apply IH. exact (NoDup_remove_1 _ _ _ Hnd).
+  - rewrite Hw. apply incl_appl. apply incl_refl.
+Qed.
+Print Assumptions served_at_most_once.
+
 (* no assertion of the spec fails and no action is ill-typed (msg is a record when its fields are read,
    Tail is applied to a non-empty queue), in any reachable state, for any event *)
 Theorem assertion_free : forall N evs e,
